@@ -31,11 +31,11 @@ theorem evalBin_err_invalid [StrNorm] (op : BinOp) (a b : Val) (hexp : intExpV o
     | set bs =>
       simp only [evalBin] at h
       split at h
-      · cases hm : mapR (fun z => scBin op x z) bs with
+      · cases hm : mapR (fun z => scBinEl op x z) bs with
         | error e' =>
           simp only [hm, Except.bind, Except.error.injEq] at h; subst h
           obtain ⟨z, hz, hfz⟩ := mapR_err _ _ _ hm
-          exact (scBin_defined op x z (hexp z hz)).2 _ hfz
+          exact (scBinEl_defined op x z (hexp z hz)).2 _ hfz
         | ok ys => simp only [hm, Except.bind] at h; exact mkSetS_err _ _ h
       · exact ⟨_, by simpa [inval] using h.symm⟩
   | set as =>
@@ -43,11 +43,11 @@ theorem evalBin_err_invalid [StrNorm] (op : BinOp) (a b : Val) (hexp : intExpV o
     | sc y =>
       simp only [evalBin] at h
       split at h
-      · cases hm : mapR (fun z => scBin op z y) as with
+      · cases hm : mapR (fun z => scBinEl op z y) as with
         | error e' =>
           simp only [hm, Except.bind, Except.error.injEq] at h; subst h
           obtain ⟨z, hz, hfz⟩ := mapR_err _ _ _ hm
-          exact (scBin_defined op z y hexp).2 _ hfz
+          exact (scBinEl_defined op z y hexp).2 _ hfz
         | ok ys => simp only [hm, Except.bind] at h; exact mkSetS_err _ _ h
       · exact ⟨_, by simpa [inval] using h.symm⟩
     | set bs =>
@@ -89,7 +89,7 @@ theorem evalUn_err (op : UnOp) (v : Val) (e : Err) (h : evalUn op v = .error e) 
   unfold evalUn at h
   split at h <;> first | exact ⟨_, by simpa [inval] using h.symm⟩ | (simp at h; done)
 
-theorem mkSet_err (vs : List Val) (e : Err) (h : mkSet vs = .error e) : e.benign := by
+theorem mkSet_err [StrNorm] (vs : List Val) (e : Err) (h : mkSet vs = .error e) : e.benign := by
   unfold mkSet at h
   split at h
   · exact benign_of_invalid ⟨_, by simpa [inval] using h.symm⟩
